@@ -14,6 +14,7 @@
  R5 capability  : both candidate lists score power = min(pin + gain_flatmax + extended gain, p_max) - power_target with
                   pin = power_target - gain_target; minimum-gain allowance 3 dB for EDFAs, none for Raman; candidates
                   are kept on gain_min > 0 then power > 0, with the 0.3 dB fall-back around the best power.
+ Rm memo          : every memoisation construct in the functions behind this property is keyed by everything it reads.
 """
 import ast
 
@@ -389,5 +390,10 @@ def r5_capability(ctx):
     ctx.need('R5.capability', 15)
 
 
+
+from ..memo import rule_for as _memo_rule
+
+RULES_MEMO = ('Rm.memo', _memo_rule('C10', 'a model would be ranked or judged with the figures of another library or gain'))
+
 RULES = [('R1.precedence', r1_precedence), ('R2.band-cover', r2_band_cover), ('R3.selection', r3_selection),
-         ('R4.raman-gate', r4_raman_gate), ('R5.capability', r5_capability)]
+         ('R4.raman-gate', r4_raman_gate), ('R5.capability', r5_capability), RULES_MEMO]
